@@ -27,8 +27,6 @@ impl<C: GetTime> MainTask<C> {
 //@ extract crates/services/consensus_module/poa/src/service.rs increase_time
 //@ end
 
-#[cfg(kani)]
-fn stub_bt() -> std::backtrace::Backtrace { std::backtrace::Backtrace::disabled() }
 
 #[cfg(kani)]
 fn any_duration() -> Duration {
@@ -42,7 +40,6 @@ fn any_duration() -> Duration {
 //@ harness kind=proof tier=quick timeout=900
 #[cfg(kani)]
 #[kani::proof]
-#[kani::stub(std::backtrace::Backtrace::capture, stub_bt)]
 fn c24_increase_time() {
     let t: u64 = kani::any();
     let d = any_duration();
@@ -62,7 +59,6 @@ fn c24_increase_time() {
 //@ harness kind=proof tier=quick timeout=900
 #[cfg(kani)]
 #[kani::proof]
-#[kani::stub(std::backtrace::Backtrace::capture, stub_bt)]
 fn c24_next_time() {
     let last: u64 = kani::any();
     let now: u64 = kani::any();
@@ -100,7 +96,6 @@ fn c24_next_time() {
 //@ harness kind=canary tier=quick expect=C24.poa-time.canary.time-never-advances timeout=900
 #[cfg(kani)]
 #[kani::proof]
-#[kani::stub(std::backtrace::Backtrace::capture, stub_bt)]
 fn c24_canary() {
     let t: u64 = kani::any();
     let r = increase_time(Tai64(t), any_duration());
